@@ -119,7 +119,7 @@ func (x *c08World) Apply(op bfs.Op) (fs []bfs.Finding) {
 	wasLocked := x.locked
 	r := run(x.w)
 	if r.panic != "" {
-		add("panic:"+ev.PanicSite(r.panic), r.panic)
+		add(panicKey(r.panic), r.panic)
 		return
 	}
 	if off > 0 {
@@ -234,7 +234,7 @@ func (x *c08World) Apply(op bfs.Op) (fs []bfs.Finding) {
 	}
 	rt := run(x.t)
 	if rt.panic != "" {
-		add("panic:"+ev.PanicSite(rt.panic), rt.panic)
+		add(panicKey(rt.panic), rt.panic)
 		return
 	}
 	// differential: after any number of completed lock/unlock episodes W must behave exactly like T
